@@ -9,6 +9,7 @@ only = [a for a in sys.argv[1:] if not a.startswith('-')]
 t0 = time.time()
 for key in R.specs:
     if only and not any(o in key for o in only): continue
+    if R.specs[key].trusted: continue
     ex._feas_cache.clear(); ex._ent_cache.clear()
     rep = verify_function(ex, key, 10000)
     bad = [(x.oid.split('::')[1], x.status, x.backend, x.detail[:100]) for x in rep.results if x.status != 'proved']
